@@ -1320,7 +1320,7 @@ impl<Sink: TokenSink> XmlTokenizer<Sink> {
                 value: replace(&mut self.current_attr_value.borrow_mut(), StrTendril::new()),
             };
 
-            if qname.local == local_name!("xmlns")
+            if (qname.prefix.is_none() && qname.local == local_name!("xmlns"))
                 || qname.prefix == Some(namespace_prefix!("xmlns"))
             {
                 self.current_tag_attrs.borrow_mut().insert(0, attr);
